@@ -194,6 +194,38 @@ impl VisitMut for OperationTransformVisitor<'_> {
         }
     }
 
+    // parameter defaults and class member initialisers run in another activation than the block they
+    // are written in, possibly while one of its expressions is being evaluated
+    fn visit_mut_function(&mut self, function: &mut Function) {
+        self.ident_provider.begin_own_temporaries();
+        function.visit_mut_children_with(self);
+        self.ident_provider.end_own_temporaries();
+    }
+
+    fn visit_mut_constructor(&mut self, constructor: &mut Constructor) {
+        self.ident_provider.begin_own_temporaries();
+        constructor.visit_mut_children_with(self);
+        self.ident_provider.end_own_temporaries();
+    }
+
+    fn visit_mut_setter_prop(&mut self, setter: &mut SetterProp) {
+        self.ident_provider.begin_own_temporaries();
+        setter.visit_mut_children_with(self);
+        self.ident_provider.end_own_temporaries();
+    }
+
+    fn visit_mut_class_prop(&mut self, class_prop: &mut ClassProp) {
+        self.ident_provider.begin_own_temporaries();
+        class_prop.visit_mut_children_with(self);
+        self.ident_provider.end_own_temporaries();
+    }
+
+    fn visit_mut_private_prop(&mut self, private_prop: &mut PrivateProp) {
+        self.ident_provider.begin_own_temporaries();
+        private_prop.visit_mut_children_with(self);
+        self.ident_provider.end_own_temporaries();
+    }
+
     // cancel visit child blocks
     fn visit_mut_block_stmt(&mut self, _n: &mut BlockStmt) {}
 }
